@@ -125,3 +125,18 @@ pub fn fresh_dir(tag: &str) -> std::path::PathBuf {
     std::fs::create_dir_all(p.parent().unwrap()).expect("scratch root");
     p
 }
+
+/// Is the directory lock of a NOMT directory held by some open file description right now?  (asked of
+/// the kernel, not read off an error message: a refused `Nomt::open` is retried only when this says yes)
+pub fn dir_lock_busy(dir: &std::path::Path) -> bool {
+    use std::os::unix::io::AsRawFd;
+    let Ok(f) = std::fs::OpenOptions::new().read(true).write(true).open(dir.join(".lock")) else { return false };
+    let fd = f.as_raw_fd();
+    let r = unsafe { libc::flock(fd, libc::LOCK_EX | libc::LOCK_NB) };
+    if r == 0 {
+        unsafe { libc::flock(fd, libc::LOCK_UN) };
+        false
+    } else {
+        true
+    }
+}
